@@ -1134,7 +1134,81 @@ pub fn check_c09(rep: &mut Report, thorough: bool) {
             rep.add_count("divergences_without_snapshot_operation_left_to_C10", 1);
         }
     });
+    snapshot_sandwiches(rep, &pools, thorough);
     sample_seq(rep, "snapshots");
+}
+
+/// Histories that the model-state search cannot tell apart from shorter ones (the model state after taking a
+/// snapshot twice under one name is the state after taking it once), but in which a backend may keep hidden
+/// rows: from the populated base state, every  a ; snapshot(g0,n1) ; b ; snapshot(g0,n2) ; c ; rollback(g0,n3)
+/// with a, b, c single writes (or nothing) on either group and n1, n2, n3 in {0,1}. No deduplication.
+fn snapshot_sandwiches(rep: &mut Report, pools: &Pools, thorough: bool) {
+    let mut writes: Vec<Option<Op>> = vec![None];
+    for g in 0..2u8 {
+        for op in [
+            Op::SaveGroup { g, nostr: g, name: 1, epoch: 1, active: true },
+            Op::Relays { g, set: 3 },
+            Op::Relays { g, set: 2 },
+            Op::Relays { g, set: 0 },
+            Op::Secret { g, epoch: 1, val: 2 },
+            Op::MlsState { g, val: 2 },
+            Op::MlsProposal { g, r: 0, val: 1 },
+            Op::MlsClearProposals { g },
+            Op::MlsLeaf { g, val: 1 },
+            Op::MlsEpochKeys { g, epoch: 0, leaf: 0, val: 1 },
+        ] {
+            if g == 0 || thorough || matches!(op, Op::Relays { .. } | Op::SaveGroup { .. }) {
+                writes.push(Some(op));
+            }
+        }
+    }
+    let mut seqs: Vec<Vec<Op>> = Vec::new();
+    for a in &writes {
+        for b in &writes {
+            for c in &writes {
+                for names in 0..8u8 {
+                    let (n1, n2, n3) = (names & 1, (names >> 1) & 1, (names >> 2) & 1);
+                    let mut q = base_prefix();
+                    // the base gets a proposal and a leaf so that removing them is possible
+                    q.push(Op::MlsProposal { g: 0, r: 1, val: 1 });
+                    q.extend(a.clone());
+                    q.push(Op::SnapCreate { g: 0, name: n1 });
+                    q.extend(b.clone());
+                    q.push(Op::SnapCreate { g: 0, name: n2 });
+                    q.extend(c.clone());
+                    q.push(Op::SnapRollback { g: 0, name: n3 });
+                    seqs.push(q);
+                }
+            }
+        }
+    }
+    let idx = std::sync::atomic::AtomicUsize::new(0);
+    let found: std::sync::Mutex<Vec<Divergence>> = std::sync::Mutex::new(Vec::new());
+    let evals = std::sync::atomic::AtomicU64::new(0);
+    std::thread::scope(|sc| {
+        for _ in 0..crate::e1::threads() {
+            sc.spawn(|| loop {
+                let i = idx.fetch_add(1, std::sync::atomic::Ordering::Relaxed);
+                if i >= seqs.len() {
+                    break;
+                }
+                let (dv, _, ev) = run_sequence(&seqs[i], pools, false);
+                evals.fetch_add(ev, std::sync::atomic::Ordering::Relaxed);
+                if let Some(dv) = dv {
+                    if dv.what != "out-of-contract" {
+                        found.lock().unwrap().push(dv);
+                    }
+                }
+            });
+        }
+    });
+    rep.states += seqs.len() as u64;
+    rep.transitions += seqs.iter().map(|s| s.len() as u64).sum::<u64>();
+    rep.evaluations += evals.load(std::sync::atomic::Ordering::Relaxed);
+    rep.add_count("snapshot_sandwich_sequences", seqs.len() as u64);
+    for dv in found.into_inner().unwrap() {
+        report_divergence("C09", &dv, pools, rep);
+    }
 }
 
 pub fn check_c18(rep: &mut Report, thorough: bool) {
